@@ -16,3 +16,11 @@
 #endif
 
 #include <ArduinoJson.h>
+
+namespace sim {
+constexpr bool kUseDouble = ARDUINOJSON_USE_DOUBLE != 0;
+constexpr bool kNaN = ARDUINOJSON_ENABLE_NAN != 0;
+constexpr bool kInf = ARDUINOJSON_ENABLE_INFINITY != 0;
+constexpr bool kComments = ARDUINOJSON_ENABLE_COMMENTS != 0;
+constexpr bool kDecodeUnicode = ARDUINOJSON_DECODE_UNICODE != 0;
+}  // namespace sim
